@@ -84,7 +84,82 @@ async fn call(state: &State, req: Request<Empty<Bytes>>) -> Option<Full> {
     Some((status, hs, body))
 }
 
+/// a backend that answers every request on every path with the same small response
+pub fn start_backend(rt: &tokio::runtime::Runtime) -> &'static rusty_penguin_lib::arg::BackendUrl {
+    use std::str::FromStr;
+    use tokio::io::{AsyncReadExt, AsyncWriteExt};
+    let port = rt.block_on(async {
+        let l = tokio::net::TcpListener::bind("127.0.0.1:0").await.unwrap();
+        let port = l.local_addr().unwrap().port();
+        tokio::spawn(async move {
+            while let Ok((mut s, _)) = l.accept().await {
+                tokio::spawn(async move {
+                    let mut buf = Vec::new();
+                    let mut b = [0u8; 2048];
+                    loop {
+                        match s.read(&mut b).await {
+                            Ok(0) | Err(_) => return,
+                            Ok(n) => buf.extend_from_slice(&b[..n]),
+                        }
+                        while let Some(pos) = buf.windows(4).position(|w| w == b"\r\n\r\n") {
+                            buf.drain(..pos + 4);
+                            if s.write_all(b"HTTP/1.1 200 OK\r\ncontent-length: 7\r\nx-backend: yes\r\n\r\nbackend").await.is_err() {
+                                return;
+                            }
+                        }
+                    }
+                });
+            }
+        });
+        port
+    });
+    Box::leak(Box::new(rusty_penguin_lib::arg::BackendUrl::from_str(&format!("http://127.0.0.1:{port}/")).unwrap()))
+}
+
+/// the class of a response for the comparison between the two configurations
+fn class_of(full: &Full) -> u64 {
+    let (status, _, body) = full;
+    if *status == 101 {
+        2
+    } else if *status == 200 && body == b"OK" {
+        0
+    } else if *status == 200 && body == PENGUIN_VERSION.as_bytes() {
+        1
+    } else {
+        3
+    }
+}
+
+/// With a backend configured the classes must be the same as without one, and every fallback
+/// response must be exactly what the same request gets on an unknown path (now: the backend's
+/// answer).  Returns None when consistent, else [7, class without backend, class with, same].
+async fn backend_variant(state_b: &State, case: &Case, class_nb: u64) -> Option<Vec<u64>> {
+    let req = build(case, &case.path)?;
+    let unk = build(case, b"/__no_such_path__")?;
+    let strip = |f: Full| -> Full { (f.0, f.1.into_iter().filter(|(k, _)| k != "date").collect(), f.2) };
+    let r = strip(call(state_b, req).await?);
+    let cb = class_of(&r);
+    let same = if cb == 3 { u64::from(call(state_b, unk).await.map(strip).as_ref() == Some(&r)) } else { 1 };
+    if cb == class_nb && same == 1 { None } else { Some(vec![7, class_nb, cb, same]) }
+}
+
 pub fn run_case(rt: &tokio::runtime::Runtime, base: &State, c: &[u64]) -> Vec<u64> {
+    thread_local! { static BACKEND: std::cell::OnceCell<&'static rusty_penguin_lib::arg::BackendUrl> = const { std::cell::OnceCell::new() }; }
+    let backend = BACKEND.with(|b| *b.get_or_init(|| start_backend(rt)));
+    let r = run_case_inner(rt, base, c);
+    if r.first() == Some(&MALFORMED) || r.first() == Some(&9) {
+        return r;
+    }
+    let Some(case) = parse(c) else { return r };
+    let psk: Option<&'static HeaderValue> = case.psk.as_ref().and_then(|p| HeaderValue::from_bytes(p).ok()).map(|v| &*Box::leak(Box::new(v)));
+    let state_b = base.clone().with_ws_psk(psk).obfs(case.obfs).with_backend(Some(backend));
+    match rt.block_on(backend_variant(&state_b, &case, r[0])) {
+        Some(bad) => bad,
+        None => r,
+    }
+}
+
+fn run_case_inner(rt: &tokio::runtime::Runtime, base: &State, c: &[u64]) -> Vec<u64> {
     let Some(case) = parse(c) else { return vec![MALFORMED] };
     let psk: Option<&'static HeaderValue> = match &case.psk {
         Some(p) => match HeaderValue::from_bytes(p) {
